@@ -63,3 +63,34 @@ func init() {
 		stub: stubCommon,
 	}
 }
+
+func init() {
+	props["C06"] = &propCfg{
+		id: "C06", level: "fault_enumeration", quickN: 3000, thoroughN: 400000,
+		rule: "One episode = one generated program. alloc shape: the allocation budget N (the library's own allocation-failure injector) is swept over EVERY allocation index 0..A of the program and of its twin with one more operation of a documented object-creating kind K appended; each run is a fresh compile with fresh inputs through RunContext; relations between runs are the oracle (failure identity below the threshold, success and identical globals at and above it, threshold(p+K) >= threshold(p)+1, calibrated literal ladders need at least as many allocations as literals). " +
+			"strlen shape: string/bytes growers under the 4x4 grid of (MaxStringLen, MaxBytesLen) in {8,64,1024,default}, every String/Bytes reachable from the globals measured after every run. recursion shape: depth/width ladders around and beyond the frame and operand-stack capacity. " +
+			"evaluations = executed runs; a case is (shape | operation kinds); non-trivial when at least one limited run was driven across its boundary (budget exhausted, length limit hit, capacity exceeded).",
+		assume: []string{
+			"the fault space enumerated is every allocation index of each generated program; programs themselves are sampled",
+			"MaxStringLen/MaxBytesLen are process-wide: one episode at a time per worker process",
+			"no constant of the implementation is mirrored except the exported StackSize/MaxFrames read at run time",
+		},
+		real: realCommon,
+		stub: []string{"host function h: simulator-owned (pure)", "allocation failures: Script.SetMaxAllocs used as the injector", "no scheduler or clock involved: single-threaded sweeps"},
+	}
+}
+
+func init() {
+	props["C14"] = &propCfg{
+		id: "C14", level: "fault_enumeration", quickN: 1500, thoroughN: 300000,
+		rule: "One episode = one generated call-tree program (one statement per line, every function called from one site, recursion with explicit depth counters, closures, a source module, abundant dead code, optionally the whole program as a module of an importing main file). A fault-free run records the dynamic sequence of marker host calls m1..mn; then EVERY k in 1..n (all k up to 300, boundary + sampled above) is re-run with 'fail the k-th host call', every planted failure site (index out of bounds, string limit, bytes limit, ill-typed operand, non-callable) is switched on in turn, the frame-limit ladder is run, and the allocation budget is swept over the first 120 allocation indexes. " +
+			"The failing statement and the active call chain are known by construction of the workload. evaluations = executed runs; a case is (shape | number of functions | log2 bucket of the marker sequence length); non-trivial when at least one marker call exists.",
+		assume: []string{
+			"the location oracle checks file and line (column only for being inside the line): statements are one per line by construction",
+			"positions of VM-internal failing operation kinds are covered only where the generator plants them on a marker line (sampled, not enumerated)",
+			"programs are sampled; within a program the fault space (which host call fails) is enumerated",
+		},
+		real: realCommon,
+		stub: []string{"host module mk (mark/boom): simulator-owned; the k-th mark call returns the injected error", "allocation failures: Script.SetMaxAllocs", "no scheduler or clock involved: single-threaded fault enumeration"},
+	}
+}
